@@ -193,7 +193,8 @@ def r3_scanners(ctx):
                 r = ret_of(p)
                 if r[0] == "agg" and r[2] == "None":
                     st = [e for e in p if e[0] == "store" and root_of(e[2])[0] == "arg" and root_of(e[2])[2] == "self"]
-                    ok = len(st) == 1 and has_subterm(st[0][3], lambda s: call_is(s, "last")) and has_subterm(st[0][3], lambda s: s == ("c", "u8", 63))
+                    ok = len(st) == 1 and ((has_subterm(st[0][3], lambda s: call_is(s, "last")) and has_subterm(st[0][3], lambda s: s == ("c", "u8", 63)))
+                                           or (call_is(st[0][3], "ends_with") and bytes_literal(st[0][3][3][1]) == b"?"))
                     flag_assigned_on_none = flag_assigned_on_none and ok
                 else:
                     zero = decision_on(p, lambda t: t[0] == "pl" and t[2] and isinstance(t[2][-1], tuple) and t[2][-1][0] == "d" or (t[0] == "bin" and t[1] == "Eq" and t[3] == ("c", "usize", 0)))
